@@ -351,6 +351,17 @@ def run(ck: core.Check, prove: bool = True):
                     if want != r["internal_verdict"]:
                         mismatch("error-class of build_main", ap, r["internal_verdict"], want)
                 if m.get("ok"):
+                    # the bridge to C01's program model, evaluated by the driver on this case:
+                    # the emission rendered as a Prog.EGraph is the same emission, the translated
+                    # program is well-formed, and validG agrees with the structural rule (hence
+                    # with the real checker, compared above)
+                    stats["bridge_checked"] = stats.get("bridge_checked", 0) + 1
+                    stats["bridge_valid"] = stats.get("bridge_valid", 0) + int(bool(m.get("bridge_valid")))
+                    if not m.get("bridge_same_emission") or not m.get("bridge_wf"):
+                        mismatch("bridge: toEGraph/toProg of the model's emission", ap,
+                                 {"same_emission": m.get("bridge_same_emission"), "wf": m.get("bridge_wf")}, None)
+                    if bool(m.get("bridge_valid")) != bool(m.get("struct_ok")):
+                        mismatch("bridge: Prog.validG vs structural rule", ap, m.get("struct_ok"), m.get("bridge_valid"))
                     mf = L.model_facets(m)
                     if r["trace"] is not None:
                         stats["facets_compared"]["trace"] = stats["facets_compared"].get("trace", 0) + 1
